@@ -84,9 +84,15 @@ def _sym(term):
     return RealBasedSymbolicFloat(term)
 
 
+UF_LOG_OF_CONSTANTS = [False]    # harnesses with concrete table temperatures set this: ln(350.0) must be the SAME abstract
+#                                  function value the code's ln(T/350.0) is related to by the ratio axioms
+
+
 def ln(x):
     with NoTracing():
         if not is_sym(x):
+            if UF_LOG_OF_CONSTANTS[0] and REPLAY is None:
+                return _sym(_LN(zv(float(x))))
             import math
             return math.log(x)
         return _sym(_LN(zv(x)))
@@ -167,7 +173,45 @@ class NpShim(object):
 
     @staticmethod
     def any(x):
+        if hasattr(x, '__iter__'):
+            for v in x:
+                if v:
+                    return True
+            return False
         return x
+
+    @staticmethod
+    def all(x):
+        if hasattr(x, '__iter__'):
+            for v in x:
+                if not v:
+                    return False
+            return True
+        return x
+
+    @staticmethod
+    def min(x):
+        if hasattr(x, '__iter__'):
+            xs = list(x)
+            m = xs[0]
+            for v in xs[1:]:
+                if v < m:
+                    m = v
+            return m
+        return x
+
+    @staticmethod
+    def max(x):
+        if hasattr(x, '__iter__'):
+            xs = list(x)
+            m = xs[0]
+            for v in xs[1:]:
+                if v > m:
+                    m = v
+            return m
+        return x
+
+    amin, amax = min, max
 
     @staticmethod
     def isscalar(x):
